@@ -29,5 +29,9 @@ case "$mode" in
     rm -f "$tmp"/*
   done
   rm -rf "$tmp"; exit $rc ;;
+ conformance)
+  exec ./target/release/simcheck conformance ;;
+ seeds)
+  exec ./seedall.sh ;;
  *) echo "unknown selftest $mode"; exit 2 ;;
 esac
